@@ -3,7 +3,7 @@ CONSTANTS
   ConfGrid = {TRUE, FALSE}
   TrustGrid = {290, 300}
   RegionGrid = {0, 1, 2}
-  LatGrid = {0, 5000, 20000}
+  LatGrid = {0, 5000}
   MaxW = 4
   Honest = 0
   MinPeers = 3
